@@ -91,14 +91,14 @@ var c06DimNames = [dNumDims]string{"version", "entries", "nextUpdate", "crlExten
 
 var c06Values = [dNumDims][]string{
 	dVer:    {"v2", "v1-absent", "v3"},
-	dN:      {"3", "0", "1", "2", "30", "0-present-empty"},
+	dN:      {"3", "0", "1", "2", "30", "0-present-empty", "800000"}, // the last one (a list of more than 16 MiB: four length octets) is not part of the core product
 	dNU:     {"present", "absent"},
 	dExt:    {"aki+number", "absent", "number", "aki+number+unknown-noncritical", "aki+number+unknown-critical", "aki+number+delta-critical", "aki+number+idp-critical", "aki+number+ian-critical", "aki+number+freshest-critical", "aki+number+aia-critical"},
 	dEnc:    {"DER", "PEM-LF", "PEM-CRLF"},
 	dDate:   {"UTCTime", "GeneralizedTime"},
 	dSerial: {"small", "1byte", "2byte", "3byte", "8byte", "9byte-topbit", "16byte", "19byte", "20byte", "zero", "2^159", "20byte-topbit"},
 	dEExt:   {"none", "reason", "reason+invalidityDate", "opaque-3KiB", "opaque-70KiB", "mixed"},
-	dIssuer: {"simple", "1rdn", "6rdn", "multivalued-rdn", "utf8-nonascii", "300byte-value"},
+	dIssuer: {"simple", "1rdn", "6rdn", "multivalued-rdn", "utf8-nonascii", "300byte-value", "cn-first", "o-before-c", "domain-components", "email+uid"},
 	dAlg:    {"ecdsa-sha256", "sha1-rsa", "sha224-rsa", "sha256-rsa", "sha384-rsa", "sha512-rsa", "ecdsa-sha1", "ecdsa-sha224", "ecdsa-sha384", "ecdsa-sha512"},
 	dPad:    {"0"}, // numeric, free
 	// thisUpdate (nextUpdate one minute later, revocation dates one minute earlier) at the edges of the UTCTime range:
@@ -201,6 +201,15 @@ func c06Issuer(shape, pad int) []byte {
 		rdn = pkix.RDNSequence{{atv(o, "vérif ünïcode ✓")}, {atv(cn, "名前")}}
 	case "300byte-value":
 		rdn = pkix.RDNSequence{{atv(o, "verif")}, {atv(cn, strings.Repeat("x", 300))}}
+	case "cn-first":
+		rdn = pkix.RDNSequence{{atv(cn, "cn first CA")}, {atv(o, "verif")}}
+	case "o-before-c":
+		rdn = pkix.RDNSequence{{atv(o, "verif")}, {atv(c, "DE")}, {atv(cn, "o before c CA")}}
+	case "domain-components":
+		dc := []int{0, 9, 2342, 19200300, 100, 1, 25}
+		rdn = pkix.RDNSequence{{atv(dc, "test")}, {atv(dc, "verif")}, {atv(cn, "dc CA")}}
+	case "email+uid":
+		rdn = pkix.RDNSequence{{atv(o, "verif")}, {atv([]int{0, 9, 2342, 19200300, 100, 1, 1}, "ca7")}, {atv([]int{1, 2, 840, 113549, 1, 9, 1}, "ca@verif.test")}, {atv(cn, "uid CA")}}
 	}
 	if pad > 0 {
 		// a padding attribute moves every later element boundary by pad bytes
@@ -262,12 +271,14 @@ func (c c06Case) build() (doc []byte, der []byte, wellFormed bool, mustReject bo
 		n = 3
 	case "30":
 		n = 30
+	case "800000":
+		n = 800000
 	case "0-present-empty":
 		s.EmptyListPresent = true
 	}
 	for i := 0; i < n; i++ {
 		ser, _ := c06Serial(c[dSerial], i)
-		e := world.RevEntry{Serial: ser, Date: vsched.Epoch.Add(-time.Duration(48+i) * time.Hour)}
+		e := world.RevEntry{Serial: ser, Date: vsched.Epoch.Add(-time.Duration(48+i%1000) * time.Hour)}
 		if c[dUpd] != 0 {
 			t, _ := time.Parse(time.RFC3339, c06Values[dUpd][c[dUpd]])
 			e.Date = t.Add(-time.Minute)
@@ -505,7 +516,7 @@ func RunC06(tier string, args []string) int {
 	// core product
 	coreN := 0
 	for ver := 0; ver < 3; ver++ {
-		for n := 0; n < len(c06Values[dN]); n++ {
+		for n := 0; n < len(c06Values[dN])-1; n++ {
 			for nu := 0; nu < 2; nu++ {
 				for ext := 0; ext < len(c06Values[dExt]); ext++ {
 					for enc := 0; enc < 3; enc++ {
@@ -518,6 +529,20 @@ func RunC06(tier string, args []string) int {
 					}
 				}
 			}
+		}
+	}
+	// the size class with four length octets (CertificateList, tbsCertList and revokedCertificates above 16 MiB)
+	{
+		var c c06Case
+		c[dN] = len(c06Values[dN]) - 1
+		judge(c)
+		coreN++
+		if tier == "thorough" {
+			c[dEnc] = 1
+			judge(c)
+			c[dEnc], c[dExt] = 0, 1
+			judge(c)
+			coreN += 2
 		}
 	}
 	// one-at-a-time dimensions crossed with a reduced core (version x crlExtensions{aki+number,absent} x encoding)
